@@ -213,6 +213,18 @@ theorem C07_send_lens (c : Cfg) (p : Path) (b : Bytes) :
 
 /-! ## the tree under examination: premises decided on the regenerated numbers -/
 
+/-- **Atomic step of the shell senders** (tie, regenerated by tools/c07_extract.go on every run).
+    Several goroutines write on one shell stream (stdout pump, stderr pump, exit/ack replies); every
+    sealed message takes the next nonce and the receiver rejects a frame overtaken by a later one, so
+    "re-assembled exactly" needs seal-and-send of one message to be ONE critical section of
+    `ss.writeMu` in `writeEncrypted`: one acquisition, the single `Encrypt` and the single
+    `WriteStreamData` both under it.  (`sendPieces` models seal+send of a piece as one step.) -/
+theorem C07_shell_seal_send_atomic :
+    Gen.C07Ast.shellSealAndSendAtomic = true ∧ Gen.C07Ast.shellWriteLocks = 1 ∧
+    Gen.C07Ast.shellSealCalls = 1 ∧ Gen.C07Ast.shellSealUnderLock = 1 ∧
+    Gen.C07Ast.shellSendCalls = 1 ∧ Gen.C07Ast.shellSendUnderLock = 1 := by
+  decide
+
 /-- The two independent extractions (measured on the compiled code / evaluated from the source
     text) agree (the WriteStreamData slice size only up to the frame limit: a larger slice is
     refused by `Frame.Encode` before it can be observed). -/
